@@ -22,11 +22,11 @@ for pid in ids:
     m = props_meta.PROPS[pid]
     full = [k for k, v in m["clauses"].items() if v.startswith("theorem")]
     partial = [k for k, v in m["clauses"].items() if not v.startswith("theorem")]
-    text = ("Lean 4 theorems about a model of the code (lean/FocaModel/Props/%s.lean), re-checked on every run against "
+    text = ("Lean 4 theorems about a model of the code (lean/FocaModel/Props/%s.lean, whole-history statements in %sH.lean where present), re-checked on every run against "
             "decision tables regenerated from /repo/src, plus a correspondence run tying the hand-written model to the real crate "
             "and an implementation-side search that produces the replay. Theorem-backed clauses: %s. "
             "Clauses that are NOT closed by a theorem (correspondence + search only): %s."
-            % (pid, "; ".join("%s [%s]" % (k, m["clauses"][k]) for k in full) or "none",
+            % (pid, pid, "; ".join("%s [%s]" % (k, m["clauses"][k]) for k in full) or "none",
                "; ".join("%s [%s]" % (k, m["clauses"][k]) for k in partial) or "none"))
     checks.append({
         "property_id": pid,
@@ -52,7 +52,7 @@ manifest = {
         "guard": "verif-hooks (cargo feature of the foca crate)",
         "enable": "the harness depends on foca with features = [\"std\", \"verif-hooks\", \"postcard-codec\", \"bincode-codec\"] (harness/Cargo.toml); nothing else enables it",
         "baseline_off_cmd": "cd /repo && cargo test --workspace --no-fail-fast --offline",
-        "source_commits": ["a05e5d9"],
+        "source_commits": ["a05e5d9", "e7e018f"],
         "add_only": True,
     },
     "engines": [
